@@ -411,6 +411,31 @@ def _ack_sites(fv):
     return out
 
 
+def _flows_to_return(fv, call):
+    """the call's Result is (an identity / map_err image of) what the function returns"""
+    from .cfg import IDENTITY_CALLS
+    b = fv.b
+    if not call.dest.is_local():
+        return False
+    seen, work = set(), [call.dest.local]
+    while work:
+        l = work.pop()
+        if l in seen:
+            continue
+        seen.add(l)
+        if l == 0:
+            return True
+        for bi, idx, kind, obj in fv._uses(l):
+            if kind == "stmt" and obj.place.is_local() and obj.rv.op in ("use", "ref") :
+                work.append(obj.place.local)
+            elif kind == "callarg":
+                c2, ai = obj
+                nm = c2.callee.name if c2.callee else ""
+                if ai == 0 and c2.dest.is_local() and any(f in nm for f in IDENTITY_CALLS):
+                    work.append(c2.dest.local)
+    return False
+
+
 class Durability:
     """persist-before-acknowledge.  classes: {name: persister_pred}.  A function *leaks* class D when some success
     return is reachable from a mutation of D without passing, after the mutation, the successful completion of a
@@ -419,6 +444,7 @@ class Durability:
     def __init__(self, ctx, eff, persisters, skip=R.is_test_util, mutates_only_on_success=(), exceptions=(),
                  storage_pred=None):
         self.exceptions = set(exceptions)
+        self.dropped_results = []
         self.storage_pred = storage_pred
         self.ctx = ctx
         self.eff = eff
@@ -443,7 +469,13 @@ class Durability:
             if direct or via:
                 es = fv.result_edges(bi, c, "ok")
                 if not es and c.target is not None:
-                    es = {(bi, c.target)}       # result not inspected (e.g. returns ()): completion edge
+                    dty = body.ty(c.dest.local) if c.dest.is_local() else ""
+                    if dty.startswith("std::result::Result<") and not _flows_to_return(fv, c):
+                        # `let _ = persist();` / `persist().ok();`: a storage error is dropped, the write may not
+                        # have happened - this is not a completed persist
+                        self.dropped_results.append((body.name, c.line))
+                        continue
+                    es = {(bi, c.target)}       # returns () or the result *is* the function's result: completion edge
                 edges |= es
         return edges
 
